@@ -355,6 +355,10 @@ class Decision(object):
                 json.dump(rec, f, indent=1, default=repr)
             lines.append('VIOLATION property=%s replay=%s%s' %
                          (self.prop, path, ' no-failing-input-found' if no_input else ''))
+        if self.violations:
+            with open(os.path.join(REPLAYS, '%s-all.json' % self.prop), 'w') as f:
+                json.dump([dict(r, no_failing_input_found=ni) for r, ni in self.violations[:500]], f,
+                          indent=1, default=repr)
         wall = time.time() - self.t0
         cov = self.coverage
         if extra:
